@@ -186,6 +186,29 @@ CHECKS = {
         "The 64-byte allowance is the harness's reading of 'a fixed header-and-footer allowance'; worst observed ratio is reported in the evidence.",
         "DESIGN.md section 4 C19",
     ),
+    "C16": (
+        "proptest over frame sequences x garbage classes x buffer segmentations; oracle = independent standalone frame decoder + order-preserving matching",
+        "exploration",
+        "Frame sequences with per-frame rate/channels/depth/length are written by FlacStreamWriter, interleaved with garbage "
+        "(sync-free, FF-rich, FF F8/F9 look-alikes, truncated real frames, FF-terminated) and read through a BufRead whose buffers "
+        "end inside every sync code / after every byte / at random points, optionally with one Interrupted error: every frame must "
+        "decode standalone by the independent decoder without STREAMINFO-referencing codes; clean streams return every frame "
+        "exactly and no errors; with garbage every returned frame is a written one in order (checksum coincidences decided by the "
+        "independent decoder); sync-free garbage costs no frame. Both build profiles.",
+        "A coincidence needs CRC-8 and CRC-16 to match by chance (~2^-24 per look-alike); such frames are counted, not blamed.",
+        "DESIGN.md section 4 C16",
+    ),
+    "C17": (
+        "differential proptest: structural parser vs streaming decoder vs independent decoder, over encoder output, generator output and checksum-valid mutants",
+        "exploration",
+        "Each frame goes to Frame::read and, as a one-frame stream with the same STREAMINFO (unknown total), to the streaming "
+        "decoder: accept/reject must agree; every subframe must expand to block-size samples; for frames whose values are all in "
+        "range the parser's samples (decorrelation undone in the harness), the decoder's and the independent decoder's must be "
+        "equal; when the independent parser establishes the premise (zero padding, minimal coded number) Frame::write must "
+        "reproduce the bytes. Both build profiles.",
+        "Out-of-range mutant frames are compared for acceptance only (their sample values are not defined by the format).",
+        "DESIGN.md section 4 C17",
+    ),
 }
 
 NOT_YET = {}
